@@ -130,6 +130,14 @@ func corpusFiles() []*descriptorpb.FileDescriptorProto {
 	dep.EnumType = append(dep.EnumType, &descriptorpb.EnumDescriptorProto{Name: proto.String("DepEnum"), Value: []*descriptorpb.EnumValueDescriptorProto{
 		{Name: proto.String("DEP_ZERO"), Number: proto.Int32(0)}, {Name: proto.String("DEP_ONE"), Number: proto.Int32(1)}, {Name: proto.String("DEP_NEG"), Number: proto.Int32(-1)}}})
 	files = append(files, dep)
+	// a second file of the same Go package that imports the first (its init must not depend on what else is generated)
+	dep2 := newFile("corpus/dep/dep2.proto", "corpus.dep", freshModule+"/corpus/dep", "corpus/dep/dep.proto")
+	d2 := newMsg("Dep2", "corpus.dep.Dep2")
+	d2.field("dep", 1, tMsg, ".corpus.dep.Dep")
+	d2.field("kind", 2, tEnum, ".corpus.dep.DepEnum")
+	d2.repeated("more", 3, tMsg, ".corpus.dep.Dep", nil)
+	dep2.MessageType = append(dep2.MessageType, d2.m)
+	files = append(files, dep2)
 
 	// --- scalars: kinds x {singular, packed, unpacked}, tag widths 1..3
 	sc := newFile("corpus/scalars/scalars.proto", "corpus.scalars", freshModule+"/corpus/scalars")
@@ -309,5 +317,8 @@ func corpusFiles() []*descriptorpb.FileDescriptorProto {
 	space.m.NestedType = append(space.m.NestedType, filter.m, coin.m)
 	nf.MessageType = append(nf.MessageType, outer.m, empty.m, names.m, wn.m, space.m)
 	files = append(files, nf)
+	if runTier == "thorough" {
+		files = append(files, randomFiles(runSeed)...)
+	}
 	return files
 }
